@@ -113,13 +113,30 @@ fn read_all(vm: &crate::vm::interpreter::VM, pkt: &Rc<crate::builtins::pcap::Pca
     Ok(out)
 }
 
+/// the assignment alphabet of the history search: every writable field of every layer x 2 values
+fn history_actions(fr: &Frame) -> Vec<(usize, &'static Field, u128)> {
+    let mut actions: Vec<(usize, &'static Field, u128)> = vec![];
+    for (li, (layer, _, _)) in fr.layers.iter().enumerate() {
+        for f in fields_of(layer) {
+            if f.writable {
+                let all: u128 = if f.width >= 128 { u128::MAX } else { (1u128 << f.width) - 1 };
+                actions.push((li, f, 0x5A5A_5A5A_5A5A_5A5A_A5A5_A5A5_A5A5_A5A5 & all));
+                actions.push((li, f, all));
+            }
+        }
+    }
+    actions
+}
+
 #[derive(Clone)]
 enum Case {
     /// (background, frame index, layer index, field index within FIELDS)
-    Single(u8, usize, usize, usize),
+    /// (.., chunk, number of chunks): the value set is split by stride so that no case outgrows the horizon
+    Single(u8, usize, usize, usize, usize, usize),
     Invalid(usize, usize, usize),
     Record,
-    History(usize),
+    /// (frame index, first assignment of the history: the search is split by it so that it runs in parallel)
+    History(usize, usize),
 }
 
 pub struct P17 {
@@ -134,7 +151,10 @@ impl P17 {
                 for (li, (layer, _, _)) in fr.layers.iter().enumerate() {
                     for (k, f) in FIELDS.iter().enumerate() {
                         if f.layer == *layer && f.writable {
-                            cases.push(Case::Single(bg, fi, li, k));
+                            let nch = if in_range_values(f, tier).len() > 4096 { 16 } else { 1 };
+                            for ch in 0..nch {
+                                cases.push(Case::Single(bg, fi, li, k, ch, nch));
+                            }
                             if bg == 1 {
                                 cases.push(Case::Invalid(fi, li, k));
                             }
@@ -144,8 +164,11 @@ impl P17 {
             }
         }
         cases.push(Case::Record);
-        cases.push(Case::History(0));
-        cases.push(Case::History(1));
+        for fi in 0..2 {
+            for a0 in 0..history_actions(&frames(1)[fi]).len() {
+                cases.push(Case::History(fi, a0));
+            }
+        }
         P17 { cases, tier }
     }
 }
@@ -233,10 +256,15 @@ impl Property for P17 {
     }
     fn describe(&self, idx: u64) -> Value {
         match &self.cases[idx as usize] {
-            Case::Single(bg, fi, _, k) => json!({"assign": format!("{}.{}", FIELDS[*k].layer, FIELDS[*k].name), "frame": (frames(*bg)[*fi].name), "background": (["0x00", "pattern", "0xFF"][*bg as usize]), "values": "all in-range values (<= 12 bits) or boundary + walking bits"}),
+            Case::Single(bg, fi, _, k, ch, nch) => json!({"assign": format!("{}.{}", FIELDS[*k].layer, FIELDS[*k].name), "frame": (frames(*bg)[*fi].name), "background": (["0x00", "pattern", "0xFF"][*bg as usize]), "values": format!("all in-range values (<= 12 bits, thorough <= 16) or boundary + walking bits; every {}th value starting at #{}", nch, ch)}),
             Case::Invalid(fi, _, k) => json!({"assign invalid values to": format!("{}.{}", FIELDS[*k].layer, FIELDS[*k].name), "frame": (frames(1)[*fi].name)}),
             Case::Record => json!({"assign": "packet.sec / usec / caplen / wirelen"}),
-            Case::History(fi) => json!({"histories": "BFS over sequences of assignments", "frame": (frames(1)[*fi].name)}),
+            Case::History(fi, a0) => {
+                let fr = &frames(1)[*fi];
+                let acts = history_actions(fr);
+                let (_, f, v) = &acts[*a0];
+                json!({"histories": "BFS over sequences of assignments", "frame": (fr.name), "first_assignment": format!("{}.{} = {:#x}", f.layer, f.name, v)})
+            }
         }
     }
     fn run(&self, idx: u64) -> CaseOut {
@@ -246,10 +274,10 @@ impl Property for P17 {
         let tier = self.tier;
         let r = guarded(|| -> Result<(String, u64, u64), String> {
             match case {
-                Case::Single(bg, fi, li, k) => {
+                Case::Single(bg, fi, li, k, ch, nch) => {
                     let fr = &frames(bg)[fi];
                     let f = &FIELDS[k];
-                    let vals = in_range_values(f, tier);
+                    let vals: Vec<u128> = in_range_values(f, tier).into_iter().skip(ch).step_by(nch).collect();
                     for v in &vals {
                         check_assignment(&vm, &dir, fr, li, f, *v)?;
                     }
@@ -339,20 +367,11 @@ impl Property for P17 {
                     }
                     Ok(("record fields".into(), n, n))
                 }
-                Case::History(fi) => {
+                Case::History(fi, a0) => {
                     // BFS over assignment sequences; model = frame bytes with the field writes applied;
                     // canonical state = model bytes; every transition replays the history on a fresh packet
                     let fr = &frames(1)[fi];
-                    let mut actions: Vec<(usize, &Field, u128)> = vec![];
-                    for (li, (layer, _, _)) in fr.layers.iter().enumerate() {
-                        for f in fields_of(layer) {
-                            if f.writable {
-                                let all: u128 = if f.width >= 128 { u128::MAX } else { (1u128 << f.width) - 1 };
-                                actions.push((li, f, 0x5A5A_5A5A_5A5A_5A5A_A5A5_A5A5_A5A5_A5A5 & all));
-                                actions.push((li, f, all));
-                            }
-                        }
-                    }
+                    let actions = history_actions(fr);
                     let depth = tier.pick(2, 3);
                     let mut seen: BTreeSet<Vec<u8>> = BTreeSet::new();
                     let mut frontier: VecDeque<(Vec<usize>, Vec<u8>)> = VecDeque::new();
@@ -364,6 +383,9 @@ impl Property for P17 {
                             continue;
                         }
                         for (ai, (li, f, v)) in actions.iter().enumerate() {
+                            if hist.is_empty() && ai != a0 {
+                                continue; // the other first assignments are other cases
+                            }
                             let (_, start, _) = &fr.layers[*li];
                             let mut m2 = model.clone();
                             set_bits(&mut m2[*start..], f.bit, f.width, *v);
